@@ -3,7 +3,7 @@
 # properties, lists every check that raised an alarm, and restores /repo.
 cd /verif
 export VERIF_EVIDENCE_DIR=$(mktemp -d /tmp/seeded-evidence.XXXXXX); trap 'rm -rf "$VERIF_EVIDENCE_DIR"' EXIT
-names="$@"; [ -z "$names" ] && names=$(ls seeded | grep -E '^(C[0-9]+-[hvy]|H[0-9]+-[pq])$')
+names="$@"; [ -z "$names" ] && names=$(ls seeded | grep -E '^(C[0-9]+-[hvyx]|H[0-9]+-[pq])$')
 for n in $names; do
   git -C /repo apply /verif/seeded/$n/patch.diff 2>/dev/null || { echo -e "$n\tapply-failed"; continue; }
   alarms=""
